@@ -59,6 +59,9 @@ def run_print(binary, sc, recs, tag, variants=0):
 
 # ------------------------------------------------------------------------------------------------ C02
 
+KNOWN_IDS = set()
+
+
 def judge_c02(chk, r, o):
     rep = {"id": r["id"], "m": r["m"], "spec": {k: r[k] for k in ("expressible", "print")}, "observed": {k: o[k] for k in ("proto", "json")}}
     for api in ("proto", "json"):
@@ -80,6 +83,11 @@ def judge_c02(chk, r, o):
         return
     rp = o["reparse"]
     if not rp["ok"]:
+        # finding D20: class predicate (a parameter of type `any`) AND the output is exactly what the Impl layer predicts AND D20 is listed as known
+        anyparam = any("TYPE_NAME_ANY" in (p["ty"], p["elem"]) for c in r["m"]["conds"] for p in c["params"])
+        if anyparam and o["proto"]["text"] == r["print"] and "D20" in KNOWN_IDS:
+            chk.known_finding("D20")
+            return
         chk.violation("tree %s: the produced DSL does not parse: %s" % (r["id"], rp.get("errs") or rp.get("panic")), dict(rep, dsl=o["proto"]["text"]))
         return
     if clean_model(rp["m"]) != clean_model(r["norm"]):
@@ -102,8 +110,16 @@ def run_c02(chk, binary, sc, tier):
     recs = res.records
     log("TLC: %d rewrite trees (depth <= 2, direct assignment anywhere), ExpressibleIffPrintable holds on the Impl printer, %.0fs%s" % (len(recs), res.wall, " (cached)" if res.cached else ""))
     obs = run_print(binary, sc, recs, "trees")
+    KNOWN_IDS.clear()
+    KNOWN_IDS.update(f["id"] for f in load_findings() if f["status"] == "known" and chk.pid in f["properties"])
     for r in recs:
         judge_c02(chk, r, obs[r["id"]])
+    for f in load_findings():
+        if f["id"] == "D20" and f["status"] == "known" and chk.pid in f["properties"]:
+            if chk.known.get("D20"):
+                log("KNOWN-FINDING: property=%s D20: %s" % (chk.pid, f["what"]))
+            else:
+                log("note: listed finding D20 no longer reproduces")
     chk.cov.update(states=res.distinct, transitions=res.generated, traces_validated_against_impl=len(recs) - len(chk.drift),
                    evaluations=len(recs) * 2, distinct_nontrivial=len([r for r in recs if len(r["id"]) > 1]), exhaustive=True,
                    expressible=len([r for r in recs if r["expressible"]]),
@@ -161,7 +177,7 @@ def judge_c14(chk, r, o):
 
 
 def run_c14(chk, binary, sc, tier):
-    ta, ra, ca = ("{1,2,3,5}", "{1,2,4}", "{1,3,6}") if tier == "quick" else ("{1,2,3,4,5}", "{1,2,3,4,7}", "{1,2,3,6}")
+    ta, ra, ca = ("{1,2,3,5}", "{1,2,8}", "{1,3,6}") if tier == "quick" else ("{1,2,3,4,5,8}", "{1,2,3,4,7,8}", "{1,2,3,6,8}")
     res = run_tlc("DslMC", ATTR_CFG % {"ta": ta, "ra": ra, "ca": ca}, sc, cache=True, timeout=3000)
     if res.violated:
         raise Infra("AttrOK (SourceCommentsInert) violated on spec/Dsl.tla:\n" + res.tail[-1500:])
@@ -175,10 +191,10 @@ def run_c14(chk, binary, sc, tier):
     chk.cov.update(states=res.distinct, transitions=res.generated, traces_validated_against_impl=len(recs), evaluations=n,
                    distinct_nontrivial=len([r for r in recs if r["modular"]]), exhaustive=True,
                    rule="a model of 2 types / 3 relations / 2 conditions with every combination of (module, file) attribution from a pool incl. empty module with file, file names with "
-                        "blank, '#', ', file:'; each printed from 4-10 shuffled JSON key orders x permuted type definitions x 3 repetitions x both option values; non-trivial = modular")
+                        "blank, '#', ', file:', a line break; each printed from 4-10 shuffled JSON key orders x permuted type definitions x 3 repetitions x both option values; non-trivial = modular")
     for r in recs[:1] + recs[-1:]:
         chk.sample({"id": r["id"], "src_output": r["src"]})
-    chk.assumptions += ["module and file names are single-line", "type definitions are permuted only for modular models (the statement limits that clause to them)"]
+    chk.assumptions += ["type definitions are permuted only for modular models (the statement limits that clause to them)"]
 
 
 # ------------------------------------------------------------------------------------------------ layouts: C01 C03 C09 C16
@@ -201,14 +217,16 @@ def layout_jobs(tier, want_valid, want_invalid):
     style dimensions and single overrides on a block of documents, seeded random mixtures beyond."""
     import random
     rng = random.Random(SEED)
-    scale = 1 if tier == "quick" else 6
+    scale = 2 if tier == "quick" else 12
     jobs = []
 
     def job(doc, viol=0, vsite=0, style=None, ov=()):
         jobs.append({"id": "L%d" % len(jobs), "doc": doc, "viol": viol, "vsite": vsite, "style": dict(style or BASE_STYLE), "ov": [list(x) for x in ov]})
 
     def rstyle():
-        return {k: rng.choice(v) for k, v in STYLE_SPACE.items()}
+        st = {k: rng.choice(v) for k, v in STYLE_SPACE.items()}
+        st["cind"] = rng.choice([0, 1, 1])
+        return st
 
     if want_valid:
         for d in range(90 * scale):                                   # every document in the base style
@@ -225,6 +243,14 @@ def layout_jobs(tier, want_valid, want_invalid):
         for k in range(6):                                            # every keyword the grammar admits as identifier, in every identifier position
             for role in range(30):
                 jobs.append({"id": "L%d" % len(jobs), "doc": 0, "kw": [k, role], "viol": 0, "vsite": 0, "style": dict(BASE_STYLE), "ov": []})
+        for d in range(27):                                           # full-line comments in column 0 at every line break, whatever the depth
+            job(d, style=dict(BASE_STYLE, cmt=1, cind=0))
+            job(d, style=dict(BASE_STYLE, cmt=1, cind=0, multi=True, ind="\t"))
+        for d in (0, 3, 6):                                           # full-line comments longer than 64 KiB at every line break
+            job(d, style=dict(BASE_STYLE, cmt=1, pad=1))
+        # a document whose canonical rendering has a line longer than 64 KiB although its own lines are short
+        jobs.append({"id": "L%d" % len(jobs), "doc": 0, "wide": 1, "viol": 0, "vsite": 0, "style": dict(BASE_STYLE, multi=True), "ov": []})
+        jobs.append({"id": "L%d" % len(jobs), "doc": 0, "wide": 1, "viol": 0, "vsite": 0, "style": dict(BASE_STYLE), "ov": []})
         for _ in range(1500 * scale):                                 # random mixtures: any style, up to two overrides
             job(rng.randrange(0, 2000), style=rstyle(), ov=[(rng.randrange(0, 200), rng.randrange(0, 9)) for _ in range(rng.choice([0, 1, 2]))])
     if want_invalid:
@@ -235,6 +261,8 @@ def layout_jobs(tier, want_valid, want_invalid):
             for site in range(12 * scale):                            # ... with restriction lists and condition bodies spread over several lines
                 for d in range(3):
                     job(d, viol=v, vsite=site, style=dict(BASE_STYLE, multi=True))
+            for site in range(4):                                     # ... behind a full-line comment longer than 64 KiB
+                job(site % 3 * 3, viol=v, vsite=site * 5, style=dict(BASE_STYLE, cmt=1, pad=1))
             for _ in range(80 * scale):                               # the same violations under random layouts (comments / blank lines around the site)
                 job(rng.randrange(0, 500), viol=v, vsite=rng.randrange(0, 500), style=rstyle())
     return jobs
